@@ -145,7 +145,13 @@ struct Lin {
                     }
                     if (L == CLAMP_STRIDED && rng.below(4) == 0) {
                         // beyond the grid: the clamp beneath makes it safe (bounded so the index conversion is defined)
-                        v = (R)((double)cells + rng.unit() * (rng.coin() ? 3.0 : 4.0e9));
+                        static const double far[] = {4294967296.0, 4294967297.0, 17179869184.0, 1.0e17, 1.0e18, 4611686018427387904.0, 9.0e18};
+                        switch (rng.below(4)) {
+                        case 0: v = (R)((double)cells + rng.unit() * 3.0); break;
+                        case 1: v = (R)((double)cells + rng.unit() * 4.0e9); break;
+                        case 2: v = (R)far[rng.below(7)]; break;
+                        default: v = (R)(far[rng.below(5)] + (double)rng.below(cells + 1)); break;  // k*2^32 + small: wraps into the grid in 32 bits
+                        }
                     }
                     if (!(v >= 0)) v = 0;
                     if (L != CLAMP_STRIDED && !((Q)v < (Q)cells)) v = std::nextafter((R)cells, -inf);
